@@ -5,6 +5,7 @@
    refused; and C45_all_closed at full strength (after the pool.py fixes 084ea49 / 43f5e7c and the cluster.py fix cbd87a0):
    every connection ever opened is closed in every state after Cluster.shutdown (invariant KK in Proofs/C45_proofs.v). *)
 From Coq Require Import ZArith List Bool Arith Lia.
+From Verif Require Import LegacyPool C45_legacy_proofs.
 From Verif Require Import Shutdown C45_proofs.
 Import ListNotations.
 
@@ -101,6 +102,25 @@ Proof.
   intros n os c s Hc. pose proof (KK_run os _ (KK_init n)) as HK. fold s in HK. exact (open_has_owner s c HK Hc).
 Qed.
 Print Assumptions C45_open_has_owner.
+
+(* ---- native protocol v1/v2: the legacy HostConnectionPool (Model/LegacyPool.v) ----
+   every history of pool operations (connection creations, trashing, lost connections, replacements), with the shutdown at
+   any point -- also while a creation is connecting, right before its locked install, or with a creation completing in the
+   window just before shutdown() takes the pool lock: once the pool is shut down every connection it ever opened is closed,
+   and from then on it opens none. *)
+Theorem C45_legacy_all_closed : forall os, let s := lrun linit os in
+  lshut s = true -> forall c, c < lnconn s -> In c (lclosed s).
+Proof. intros os s Hs. exact (legacy_all_closed s (LI_run os _ LI_init) Hs). Qed.
+Print Assumptions C45_legacy_all_closed.
+
+Theorem C45_legacy_no_new_connections : forall os o, let s := lrun linit os in
+  lshut s = true -> lnconn (lstep s o) = lnconn s /\ lshut (lstep s o) = true.
+Proof. intros os o s Hs. exact (shut_step s o Hs). Qed.
+Print Assumptions C45_legacy_no_new_connections.
+
+Example C45_nonvacuous_legacy : let s := lrun linit [LSpawn; LRun 0 true 0; LTrash 0 true; LLost 0; LSpawn; LShutdownRacing 1; LRun 0 false 0] in
+  lshut s = true /\ lnconn s = 4 /\ lconns s = [2; 3] /\ ltrash s = [0] /\ lqueue s = [].
+Proof. vm_compute. repeat split; auto. Qed.
 
 (* concrete non-trivial runs: shutdown with queued pool creation, control reconnect and timers: everything ends closed *)
 Example C45_nonvacuous : let s := run (init 2) [OPoolTask 0 false; OCCReconnect; OStartRecon 1; OFire 0 Err false; OClusterShutdown;
